@@ -25,6 +25,7 @@ use vf_core::{Args, Ctx, PanicPolicy, Rng};
 pub const REPLAY: Option<fn(&mut Ctx, &Args, &serde_json::Value, Option<&[u8]>)> = None;
 
 fn rnd<T: Elem>(ctx: &mut Ctx, codec: &mut Codec, histories: usize, steps: usize) {
+    let t0 = ctx.elapsed_s();
     let mut r = Runner::new(ctx);
     let mut cb = |r: &mut Runner, a: &IntSet<T>, m: &Iv, origin: &str| {
         // codec round trip of the sets histories actually produced (u32 only, inclusive, bounded size)
@@ -35,13 +36,23 @@ fn rnd<T: Elem>(ctx: &mut Ctx, codec: &mut Codec, histories: usize, steps: usize
         }
     };
     hist::random_histories::<T>(&mut r, histories, steps, &mut cb);
+    drop(r);
+    lap(ctx, &format!("rnd:{}", T::NAME), t0);
+}
+
+fn lap(ctx: &mut Ctx, what: &str, t0: f64) {
+    let dt = ctx.elapsed_s() - t0;
+    if std::env::var("VF_TIMING").is_ok() {
+        eprintln!("c14 timing: {:<28} {:8.2}s", what, dt);
+    }
+    ctx.count(&format!("wall_ms:{}", what), (dt * 1000.0) as u64);
 }
 
 pub fn run(ctx: &mut Ctx, _args: &Args) {
     ctx.policy = PanicPolicy::Any;
     ctx.rule = "IntSet: a history step is non-trivial when the operation changed the membership of the set, combined two sets \
                 (union/intersect/subtract), inverted it or changed a mode; distinct = distinct (domain, operation, modes of both \
-                sets before and after, resulting set) tuples (at most 60000 recorded per shard). Codec: a round trip of a non-empty \
+                sets before and after, resulting set) tuples (at most 8000 recorded per shard and domain). Codec: a round trip of a non-empty \
                 set, or a decode of arbitrary bytes that the specification algorithm accepts with a tree of >= 2 nodes; distinct = \
                 distinct (consumed bytes, bias, max). RangeSet: distinct resulting pairs of non-empty sets."
         .into();
@@ -70,12 +81,21 @@ pub fn run(ctx: &mut Ctx, _args: &Args) {
     }
 
     let mut codec = Codec::new(t.pick(2, 12));
+    let only = std::env::var("VF_C14_ONLY").unwrap_or_default();
+    let skip_hist = only == "codec";
 
     // ---- 1. exhaustive operation sequences
-    {
+    if !skip_hist {
+        let t0 = ctx.elapsed_s();
         let mut r = Runner::new(ctx);
         hist::exhaustive::<Disc10>(&mut r, &DISC10, 4, "Disc10-len4");
+        drop(r);
+        lap(ctx, "exhaustive:Disc10", t0);
+        let t0 = ctx.elapsed_s();
+        let mut r = Runner::new(ctx);
         hist::exhaustive::<Cont>(&mut r, &CONT_TEN, t.pick(3, 4), if thorough { "Cont1536-len4" } else { "Cont1536-len3" });
+        drop(r);
+        lap(ctx, "exhaustive:Cont", t0);
     }
     ctx.exhaustive = Some(true);
     ctx.extra.insert(
@@ -85,7 +105,7 @@ pub fn run(ctx: &mut Ctx, _args: &Args) {
 
     // ---- 2. random long histories
     let steps = 10_000;
-    let k = t.pick(1usize, 8);
+    let k = if skip_hist { 0 } else { t.pick(1usize, 8) };
     rnd::<u32>(ctx, &mut codec, 48 * k, steps);
     rnd::<GlyphId>(ctx, &mut codec, 16 * k, steps);
     rnd::<Tag>(ctx, &mut codec, 16 * k, steps);
@@ -99,6 +119,7 @@ pub fn run(ctx: &mut Ctx, _args: &Args) {
 
     // ---- 3. codec
     // 3a. all subsets of 0..16
+    let t0 = ctx.elapsed_s();
     for bits in 0..65536u32 {
         if !ctx.mine(bits as usize) {
             continue;
@@ -107,6 +128,8 @@ pub fn run(ctx: &mut Ctx, _args: &Args) {
         let s: IntSet<u32> = m.iter().collect();
         codec.roundtrip(ctx, &s, &m, &format!("subset16:{:04x}", bits));
     }
+    lap(ctx, "codec:subsets16", t0);
+    let t0 = ctx.elapsed_s();
     // 3b. generated corner-case sets, and mutations of their encodings
     let n_sets = t.pick(4_000usize, 60_000);
     for i in 0..n_sets {
@@ -134,6 +157,8 @@ pub fn run(ctx: &mut Ctx, _args: &Args) {
             codec.decode_arbitrary(ctx, &e, bias, max, "mutated-encoding");
         }
     }
+    lap(ctx, "codec:gen_sets", t0);
+    let t0 = ctx.elapsed_s();
     // 3c. all strings of length 0, 1, 2 (thorough: 3) x bias/max pairs
     if ctx.mine(0) {
         for (bias, max) in codec::BIAS_MAX {
@@ -165,6 +190,8 @@ pub fn run(ctx: &mut Ctx, _args: &Args) {
         }
         ctx.count("codec:exhaustive_len3_strings", if ctx.shard.0 == 0 { 1 << 24 } else { 0 });
     }
+    lap(ctx, "codec:exhaustive_strings", t0);
+    let t0 = ctx.elapsed_s();
     // 3d. random strings and random complete trees (+ mutations)
     let n_rand = t.pick(30_000usize, 400_000);
     {
@@ -195,6 +222,8 @@ pub fn run(ctx: &mut Ctx, _args: &Args) {
             codec.decode_arbitrary(ctx, &data, bias, max, "mutated-tree");
         }
     }
+    lap(ctx, "codec:random", t0);
+    let t0 = ctx.elapsed_s();
     codec.flush(ctx);
 
     // ---- 4. RangeSet
@@ -211,6 +240,7 @@ pub fn run(ctx: &mut Ctx, _args: &Args) {
         rangeset::random::<Fixed>(&mut rs, ctx, h, 120);
         rs.tally.flush(ctx, "");
     }
+    lap(ctx, "rangeset", t0);
 
     ctx.sample(serde_json::json!({"kind": "exhaustive history", "example": "start A=all (inverted), B={511,1023}; ops: I511-1024 W U V -> all observers vs model after each"}));
     ctx.sample(serde_json::json!({"kind": "codec", "example": "bytes 0d 03 31 (bf4, height 3) decode to 0..=17 with 0 unread bytes under library and specification algorithm"}));
